@@ -1,7 +1,7 @@
 /-
   C11 model: mutation execution is `ApiFu.C02.execSerial` (executeSelections with forceSerial =
   true) of the C02 executor model; this file adds the observable of C11 — the event log of
-  resolver starts and promise fulfilments keyed by response path — and the serial-order predicate.
+  resolver starts and promise fulfilments keyed by response path — and the serial-order predicates.
   Core Lean only.
 -/
 import ApiFu.C02.Model
@@ -9,20 +9,58 @@ import ApiFu.C02.Model
 namespace ApiFu.C11
 open ApiFu.C02
 
-/-- Resolver events of the log: (response path) of every `start` and `fulfil`, in order. -/
-def events : List Entry → List Path
+/-- The response path lies under root response key `k`. -/
+def under (k : String) : Path → Bool
+  | .key k' :: _ => k' == k
+  | _ => false
+
+/-- Resolver events of the log (`start` = a resolver was called, `fulfil` = a promise was
+    delivered), in order. -/
+def events : List Entry → List Entry
   | [] => []
-  | .start p :: rest => p :: events rest
-  | .fulfil p :: rest => p :: events rest
+  | .start p :: rest => .start p :: events rest
+  | .fulfil p :: rest => .fulfil p :: events rest
   | _ :: rest => events rest
 
-/-- The event path lies under root response key `k`. -/
-def Under (k : String) (p : Path) : Prop := ∃ rest, p = Seg.key k :: rest
+/-- An entry that may be logged while root field `k` is being executed, when `pending` are the
+    promises of earlier root fields that were abandoned but are still outstanding: resolver starts
+    only under `k`; fulfilments under `k` or of a pending promise. -/
+def evOk (k : String) (pending : List Path) : Entry → Prop
+  | .start p => under k p = true
+  | .fulfil p => under k p = true ∨ p ∈ pending
+  | .write mp _ _ _ => under k mp = true      -- `Set` on a result map beneath `k`
+  | _ => True
 
-/-- `log` is a concatenation of blocks, the i-th of which only has events under the i-th key. -/
-inductive Serial : List String → List Path → Prop where
-  | nil : Serial [] []
-  | cons (k : String) (ks : List String) (block rest : List Path) :
-      (∀ p ∈ block, Under k p) → Serial ks rest → Serial (k :: ks) (block ++ rest)
+/-- The `Set` of root slot `j` to the value of root field `k`. -/
+def isRootWrite (k : String) (e : Entry) : Prop := ∃ j v, e = .write [] j k v
+
+/--
+`SerialLog keys pending log`: the log splits into consecutive blocks, one per root key in order;
+the block of `k` satisfies `evOk k pending`, where `pending` are the promises still outstanding
+when the block starts — all of them under earlier keys (second premise). Execution may stop
+before the remaining keys are touched (`stop`).
+-/
+inductive SerialLog : List String → List Path → List Entry → Prop where
+  | stop (keys : List String) (pending : List Path) : SerialLog keys pending []
+  | block (k : String) (keys : List String) (pending pending' : List Path) (blk rest : List Entry) :
+      (∀ e ∈ blk, evOk k pending e ∨ isRootWrite k e) →
+      (∀ p ∈ pending', p ∈ pending ∨ under k p = true) →
+      SerialLog keys pending' rest →
+      SerialLog (k :: keys) pending (blk ++ rest)
+
+/-- Strict form: every event of the block of `k` is under `k`. -/
+inductive StrictSerial : List String → List Entry → Prop where
+  | stop (keys : List String) : StrictSerial keys []
+  | block (k : String) (keys : List String) (blk rest : List Entry) :
+      (∀ e ∈ blk, evOk k [] e ∨ isRootWrite k e) → StrictSerial keys rest → StrictSerial (k :: keys) (blk ++ rest)
+
+def rootKeys : List Field → List String
+  | [] => []
+  | f :: fs => f.key :: rootKeys fs
+
+/-- Root slots are only ever set with the key of the field at that position: every
+    `Set(j, key, _)` on the root map among `l` has `j ≥ i` and `key = keys[j - i]`. -/
+def RootWrites (i : Nat) (keys : List String) (l : List Entry) : Prop :=
+  ∀ j key v, Entry.write [] j key v ∈ l → i ≤ j ∧ keys[j - i]? = some key
 
 end ApiFu.C11
